@@ -1378,7 +1378,14 @@ class TaskPool:
     def release_held_active_task(self, itask: TaskProxy) -> None:
         if itask.state_reset(is_held=False):
             self.data_store_mgr.delta_task_state(itask)
-            if (not itask.state.is_runahead) and itask.is_ready_to_run():
+            if (
+                not itask.state.is_runahead
+                # A task that is already on its way to job submission (e.g.
+                # triggered while held) must not be queued as well, or it
+                # would be submitted a second time on release from the queue.
+                and not itask.waiting_on_job_prep
+                and itask.is_ready_to_run()
+            ):
                 self.queue_task(itask)
         self.tasks_to_hold.discard((itask.tdef.name, itask.point))
         self.workflow_db_mgr.put_tasks_to_hold(self.tasks_to_hold)
